@@ -61,8 +61,8 @@ PROPS["C12"] = {
 }
 
 PROPS["C13"] = {
-    "jobs": [{"cmd": "c13", "shards": 32, "shards_thorough": 48}],
-    "cli": False,
+    "jobs": [{"cmd": "c13", "shards": 32, "shards_thorough": 48}, {"cmd": "cli13", "shards": 8}],
+    "cli": True,
     "trusted_base": ["direct oracle: pairwise comparison of the real outputs with the option on and off", "M5 correspondence (as C01)"],
     "modelled": WHOLE_FILE_MODELLED,
     "level_text": "Lean theorem (for every directive semantics, every source, every world): the runs with the option on and off fail together, end in the same state (tags, temp files, executed commands) and their outputs are equal or differ by exactly one line ending at the very end; lifted to the txtpp pass in all modes and both passes. Checked on the implementation by building every generated project twice and comparing directly.",
@@ -166,13 +166,13 @@ PROPS["C08"] = {
 }
 
 PROPS["C09"] = {
-    "jobs": [{"cmd": "c09", "shards": 32, "shards_thorough": 48}],
-    "cli": False,
+    "jobs": [{"cmd": "c09", "shards": 32, "shards_thorough": 48}, {"cmd": "cli09", "shards": 8}],
+    "cli": True,
     "trusted_base": ["M7 correspondence: every run of a generated history (library in process, real sh, real file system with sentinel mtimes) vs the Lean whole-run model over the same pre-state tree: verdict, all bytes on success, executed-command markers, touch set", "direct oracles on full-tree snapshots of the real runs"],
     "modelled": WHOLE_FILE_MODELLED,
     "level_text": "Lean theorems: in needed mode an output whose bytes are already correct is returned untouched (same file system value, same touch set), a stale or missing one is written, and verdict and bytes at every path equal those of a normal build's done; opening touches nothing; no mode rewrites a temp file whose content is already correct while stale ones end correct. On the implementation: per generated file up to date / stale (longer, shorter, same length, non-UTF-8, other) / missing, source edits that shorten the output; bytes equal a normal build in a scratch copy, (inode, mtime) preserved for correct files.",
     "design_ref": '5 C09',
-    "level_note": 'The CLI mapping -N -> InMemoryBuild is exercised through the CLI in C13/C04 jobs; here the library mode is used.',
+    "level_note": 'The CLI mapping -N -> InMemoryBuild (and -n, verify, clean, -r, -j) is checked on the binary by the CLI-flags job: same tree through the library with the Config and through the binary with the flags.',
     "technique": 'Lean 4 proof (needed sink = build sink on bytes, no-touch lemmas) + history-based differential correspondence',
     "assumptions": ['commands are deterministic'],
 }
